@@ -106,6 +106,8 @@ type op =
   | OpRoute of params * bool * fprow list * fprow list
   | OpAccess of params * fprow list
   | OpIndex of nat
+  | OpRefresh of int * data
+  | OpParallel of int * int list
   | OpOptimize of z * (nat * z * z) * (nat * z * z) * (nat * nat * nat * z * z) list
 
 let read_ops () =
@@ -127,6 +129,12 @@ let read_ops () =
          let rows = counted row in
          ops := OpAccess (p, rows) :: !ops
        | "index" -> let sc = nat () in ops := OpIndex sc :: !ops
+       | "refresh" ->
+         let k = int () in
+         (match next () with "dataset" -> () | t -> failwith ("refresh: expected dataset, got " ^ t));
+         let d' = read_dataset () in
+         ops := OpRefresh (k, d') :: !ops
+       | "parallel" -> let n = int () in let sl = counted int in ops := OpParallel (n, sl) :: !ops
        | "optimize" ->
          let minw = zz () in
          let an = nat () in let aw = zz () in let ad = zz () in
@@ -146,9 +154,17 @@ let journey_of d aw ad ew ed legs =
   if List.exists (fun x -> x = None) ls then None
   else Some (walk_js aw ad :: List.filter_map (fun x -> x) ls @ [ walk_js ew ed ])
 
-let run_model d ops =
+let run_model d0 ops =
+  let dref = ref d0 in
   List.iter (fun op ->
+      let d = !dref in
       (match op with
+       | OpRefresh (_, d') ->
+         (* spec_ops (Proofs/ServerInv.v, C15_general): later requests are answered on the new data *)
+         dref := d';
+         let status = if d'.d_nodes = [] then 8 else if d'.d_lines = [] then 3 else if d'.d_paths = [] then 4 else if d'.d_scenarios = [] then 6 else if d'.d_trips = [] then 7 else 0 in
+         ps "refresh ok"; pi status
+       | OpParallel (_, _) -> ps "parallel"
        | OpRoute (p, alt, acc, egr) ->
          (match find_scenario d p.q_scenario with
           | None -> ps "route noscenario"
@@ -239,8 +255,10 @@ let words s = List.filter (fun x -> x <> "") (String.split_on_char ' ' s)
 let v01 bo = if bo then "1" else "0"
 let opt_s = function None -> "none" | Some z -> string_of_int (int_of_z z)
 
-let run_oracle d ops implfile =
+let run_oracle d0 ops implfile =
+  let dref = ref d0 in
   let ic = open_in implfile in
+  let d = d0 in
   let wf = wf_data_b d in
   let pos = pos_hops_b d in
   let uni = uniform_wait_b d in
@@ -248,7 +266,11 @@ let run_oracle d ops implfile =
   List.iter (fun op ->
       let line = try input_line ic with End_of_file -> "missing" in
       let toks = words line in
+      let d = !dref in
+      let wf = wf_data_b d in let pos = pos_hops_b d in let uni = uniform_wait_b d in
       (match op with
+       | OpRefresh (_, d') -> dref := d'; print_string "v refresh"
+       | OpParallel (_, _) -> print_string "v parallel"
        | OpRoute (p, alt, acc, egr) ->
          (match find_scenario d p.q_scenario with
           | None -> print_string "v noscenario"
@@ -396,6 +418,35 @@ let run_oracle d ops implfile =
       print_newline ()) ops;
   close_in ic
 
+(* ---- C11 transformation: print the dataset with the trips excluded by a scenario removed and that
+   scenario replaced by its all-inclusive version (Coq functions delete_excluded / all_inclusive) ---- *)
+let print_dataset (d : data) =
+  let pl l = Printf.printf " %d" (List.length l); List.iter (fun x -> Printf.printf " %d" (int_of_nat x)) l in
+  print_string "dataset\nnodes"; pl d.d_nodes; print_newline ();
+  let rows l = Printf.printf " %d" (List.length l); List.iter (fun r -> Printf.printf " %d %d %d" (int_of_nat r.fp_node) (int_of_z r.fp_time) (int_of_z r.fp_dist)) l in
+  List.iter (fun (n, l) -> Printf.printf "fp %d" (int_of_nat n); rows l; print_newline ()) d.d_fp;
+  List.iter (fun (n, l) -> Printf.printf "rfp %d" (int_of_nat n); rows l; print_newline ()) d.d_rfp;
+  List.iter (fun l -> Printf.printf "line %d %d %d\n" (int_of_nat l.l_id) (int_of_nat l.l_agency) (int_of_nat l.l_mode)) d.d_lines;
+  List.iter (fun p -> Printf.printf "path %d %d" (int_of_nat p.p_id) (int_of_nat p.p_line); pl p.p_nodes;
+              Printf.printf " %d" (List.length p.p_dists); List.iter (fun x -> Printf.printf " %d" (int_of_z x)) p.p_dists; print_newline ()) d.d_paths;
+  List.iter (fun t -> Printf.printf "trip %d %d %d %d" (int_of_nat t.t_id) (int_of_nat t.t_path) (int_of_nat t.t_service) (List.length t.t_times);
+              List.iter (fun s -> Printf.printf " %d %d %d %d" (int_of_z s.st_arr) (int_of_z s.st_dep) (if s.st_cb then 1 else 0) (if s.st_cu then 1 else 0)) t.t_times;
+              print_newline ()) d.d_trips;
+  List.iter (fun s -> Printf.printf "scen %d" (int_of_nat s.s_id);
+              List.iter pl [ s.s_services; s.s_onlyLines; s.s_onlyModes; s.s_onlyAgencies; s.s_onlyNodes; s.s_exceptLines; s.s_exceptModes; s.s_exceptAgencies; s.s_exceptNodes ];
+              print_newline ()) d.d_scenarios;
+  print_string "end\n"
+
+let run_delete d sc =
+  match find_scenario d (nat_of_int sc) with
+  | None -> print_string "noscenario\n"
+  | Some s ->
+    let d' = delete_excluded d s in
+    let s' = all_inclusive d s in
+    let d'' = { d' with d_scenarios = List.map (fun x -> if int_of_nat x.s_id = sc then s' else x) d'.d_scenarios } in
+    Printf.printf "# remaining %d of %d trips\n" (List.length d''.d_trips) (List.length d.d_trips);
+    print_dataset d''
+
 let () =
   let mode = Sys.argv.(1) in
   load Sys.argv.(2);
@@ -405,4 +456,5 @@ let () =
   match mode with
   | "model" -> run_model d ops
   | "oracle" -> run_oracle d ops Sys.argv.(3)
+  | "delete" -> run_delete d (int_of_string Sys.argv.(3))
   | _ -> failwith "mode"
